@@ -103,11 +103,7 @@ def payload_lit(p):
 class Clock:
     us = 0
 CLOCK = Clock()
-# the process's local time zone is given a non-zero UTC offset, so that names written with utc=False carry another tag (+0530)
-# than names written with utc=True (+0000)
-os.environ['TZ'] = 'XST-5:30'
 import time as _time_mod
-_time_mod.tzset()
 
 class FakeDatetime(real_datetime):
     @classmethod
@@ -1241,6 +1237,10 @@ def main():
     # one directory used under two UTC-offset tags (a writer closed and reopened after a DST switch / with LOG_UTC toggled, a reader
     # created with another utc flag than the writer): the tag in the file names is for the humans - every record is still read,
     # the budget still counts every file, positions handed out earlier still work (oracle only)
+    # (for this family only the process's local time zone gets a non-zero offset, so that utc=False names carry +0530)
+    saved_tz = os.environ.get('TZ')
+    os.environ['TZ'] = 'XST-5:30'
+    _time_mod.tzset()
     for mode in ('txt', 'json', 'binl'):
         for variant in range(run.n(2, 10)):
             root = tempfile.mkdtemp(prefix='verif_c13_tz_')
@@ -1275,6 +1275,7 @@ def main():
                     if not sizes_ok:
                         break
                     if phase == 0 and tsz == 10 ** 6:
+                        CLOCK.us += 10 ** 6
                         reader = RollLog(root, mode, rdonly=True, utc=not utc_flag)
                         reader.seek(('start', 0))
                         delivered.append(reader.read())
@@ -1302,6 +1303,11 @@ def main():
                 run.seen(('tz', mode, variant, fsz, tsz), nontrivial=True)
             finally:
                 shutil.rmtree(root, ignore_errors=True)
+    if saved_tz is None:
+        os.environ.pop('TZ', None)
+    else:
+        os.environ['TZ'] = saved_tz
+    _time_mod.tzset()
     for k, n in seen_keys.items():
         run.count('violation:' + k, n)
     run.rule = RULE
